@@ -104,7 +104,7 @@ def run(ctx):
     if exe is None:
         ctx.broke("correspondence", "harness/c15.cpp does not build against /repo", log[-800:])
         return
-    n = 300 if ctx.quick else 5000
+    n = 240 if ctx.quick else 5000
     if ctx.broken:
         n *= 4
     seed0 = ctx.seed * 1000003
